@@ -120,6 +120,28 @@ def run_case(spec, j):
          'query_dtype': str(np.dtype(qdt)) if qdt and not prep else 'as-data'}
   key = (name, repr(spec.get('params')), spec['ds']['seed'], prep)
   with Quiet():
+    # the number of tuples in a call is arbitrary (seams of blocked code)
+    for nb in (1, 1023, 1024, 2048):
+      ib = np.resize(np.arange(len(idx)), nb)
+      try:
+        big_dec = est.decision_function(arg(idx[ib]))
+        big_pred = est.predict(arg(idx[ib]))
+        ref_dec = est.decision_function(T)[ib]
+        ref_pred = est.predict(T)[ib]
+        # (decisions within rounding of the boundary may legitimately flip
+        # when the linear algebra library blocks differently)
+        clear = np.abs(ref_dec) > 1e-9 * np.abs(ref_dec[np.isfinite(
+            ref_dec)]).max(initial=0.0)
+        if size == 2:
+          clear = np.abs(-ref_dec - est.threshold_) > 1e-9 * max(
+              abs(est.threshold_), 1e-300)
+        j.check('C04.batch-size',
+                np.array_equal(big_pred[clear], ref_pred[clear]) and
+                np.allclose(big_dec, ref_dec, rtol=1e-12, atol=0,
+                            equal_nan=True),
+                dict(det, size=nb))
+      except Exception as e:
+        j.violated('C04.batch-size', dict(det, size=nb, raised=repr(e)[:200]))
     if size == 2:
       _pairs(j, est, T, arg, idx, ds, rng, det, key)
     elif size == 3:
